@@ -302,6 +302,15 @@ func c04Case(r *mon.Run, jr *rand.Rand, key *world.Key, cred *world.Cred, kss *k
 		if kss != nil {
 			list, err = kss.prove(gabi.ProofBuilderList{b}, ctx, nonce, issig)
 		} else {
+			if jr.IntN(3) == 0 {
+				// a first session was started with this builder and abandoned after its challenge was computed (the verifier's
+				// nonce was replaced); the builder then serves the real session
+				if _, e0 := (gabi.ProofBuilderList{b}).Challenge(ctx, new(big.Int).Add(nonce, bi(1)), issig); e0 != nil {
+					err = fmt.Errorf("abandoned first challenge: %w", e0)
+					return
+				}
+				r.Add("builders_with_an_abandoned_first_session", 1)
+			}
 			list, err = gabi.ProofBuilderList{b}.BuildProofList(ctx, nonce, issig)
 		}
 		if err != nil {
